@@ -66,7 +66,7 @@ func (f *Frame) execInstr(b *ssa.BasicBlock, st *State, in ssa.Instruction) bool
 			f.nilCheck(st, base, in)
 		}
 		a := tr.addrOf(base, x.X.Type())
-		f.vals[x] = Val{addr: &Addr{key: a.key + "." + stt.Field(x.Field).Name(), idxs: a.idxs, typ: stt.Field(x.Field).Type()}, typ: x.Type()}
+		f.vals[x] = Val{addr: &Addr{key: a.key + "." + stt.Field(x.Field).Name(), idxs: a.idxs, typ: stt.Field(x.Field).Type(), gl: a.gl}, typ: x.Type()}
 	case *ssa.Field:
 		v := f.val(x.X)
 		stt := x.X.Type().Underlying().(*types.Struct)
@@ -263,12 +263,34 @@ func (f *Frame) havocAll(b *ssa.BasicBlock, st *State, why string) {
 			st.guard = and(st.guard, sx("<=", old, st.mem[k]))
 		} else if strings.HasPrefix(k, "R:") {
 			continue
+		} else if strings.HasPrefix(k, "G:") && tr.immutableGlobalKey(k) {
+			continue // never stored to outside its initialiser (static scan)
 		} else {
 			st.mem[k] = c.declConst("Hh_"+k, tr.memSortFull(k))
 		}
 		f.noteWrite(k, b.Index)
 	}
 	f.noteWrite("*", b.Index)
+	tr.havocGuards = append(tr.havocGuards, st.guard)
+	tr.assumeGlobalInvs(st)
+}
+
+func (tr *Translator) immutableGlobalKey(k string) bool {
+	base := k
+	if i := strings.Index(k[2:], "["); i >= 0 {
+		base = k[:i+2]
+	}
+	// struct-typed globals have field paths after the variable name: try progressively shorter prefixes
+	for {
+		if g := tr.l.globalByKey(base); g != nil {
+			return tr.l.globalInfoOf(g).immutable
+		}
+		i := strings.LastIndex(base, ".")
+		if i < 3 {
+			return false
+		}
+		base = base[:i]
+	}
 }
 
 // ---------------------------------------------------------------------------------------------
@@ -501,6 +523,21 @@ func (f *Frame) unop(b *ssa.BasicBlock, st *State, x *ssa.UnOp) Val {
 		r := tr.load(st, a)
 		r.t = c.define(x.Name(), c.sortOf(x.Type()), r.t)
 		r.typ = x.Type()
+		if a.gl != nil {
+			r.gl = a.gl
+			if _, isSig := x.Type().Underlying().(*types.Signature); isSig {
+				gi := tr.l.globalInfoOf(a.gl)
+				if gi.candsKnown && len(gi.cands) > 0 {
+					sig := x.Type().Underlying().(*types.Signature)
+					for _, cand := range gi.cands {
+						cs := cand.Signature
+						if cs.Recv() == nil && types.Identical(types.NewSignatureType(nil, nil, nil, cs.Params(), cs.Results(), cs.Variadic()), types.NewSignatureType(nil, nil, nil, sig.Params(), sig.Results(), sig.Variadic())) {
+							r.cands = append(r.cands, cand)
+						}
+					}
+				}
+			}
+		}
 		if facts := tr.typeFacts(st, r); len(facts) > 0 {
 			st.guard = and(append([]Sx{st.guard}, facts...)...)
 		}
@@ -673,7 +710,7 @@ func (f *Frame) indexAddr(st *State, x *ssa.IndexAddr) Val {
 		f.boundsCheck(st, idx, sx("sl_len", base.t), x)
 		key := "E:" + shortType(u.Elem())
 		off := c.define("off", it.isort(), it.add(I64, sx("sl_off", base.t), idx))
-		return Val{addr: &Addr{key: key, idxs: []Sx{sx("sl_arr", base.t), off}, typ: u.Elem()}, typ: x.Type()}
+		return Val{addr: &Addr{key: key, idxs: []Sx{sx("sl_arr", base.t), off}, typ: u.Elem(), gl: base.gl}, typ: x.Type()}
 	case *types.Pointer: // pointer to array
 		arr := u.Elem().Underlying().(*types.Array)
 		f.boundsCheck(st, idx, it.iconst(arr.Len()), x)
@@ -681,7 +718,7 @@ func (f *Frame) indexAddr(st *State, x *ssa.IndexAddr) Val {
 			f.nilCheck(st, base, x)
 		}
 		a := tr.addrOf(base, x.X.Type())
-		return Val{addr: &Addr{key: a.key + "[]", idxs: append(append([]Sx{}, a.idxs...), idx), typ: arr.Elem()}, typ: x.Type()}
+		return Val{addr: &Addr{key: a.key + "[]", idxs: append(append([]Sx{}, a.idxs...), idx), typ: arr.Elem(), gl: a.gl}, typ: x.Type()}
 	}
 	c.unsupp("IndexAddr on %s", x.X.Type())
 	return Val{t: c.declConst("ia", "Int"), typ: x.Type()}
